@@ -157,7 +157,7 @@ class Algebra:
             assert all(eJ[0] == 'e' for eJ in self.basis)
             vecs = [eJ[1:] for eJ in self.basis if len(eJ) == 2]
             if vecs:
-                self.start_index = int(min(vecs), 16)
+                self.start_index = min(int(v, 16) for v in vecs)
             vec2bin = {vec: 2 ** j for j, vec in enumerate(vecs)}
             self.canon2bin = {eJ: reduce(operator.xor, (vec2bin[v] for v in eJ[1:]), 0)
                               for eJ in self.basis}
